@@ -109,6 +109,10 @@ func c17Retain(r *core.Run, prog *core.Program) {
 	bad, noted := 0, 0
 	seen := map[string]bool{}
 	for _, fn := range fns {
+		// package initialisers run once per process, whatever the call graph says about them
+		if fn.Synthetic != "" || fn.Name() == "init" || strings.HasPrefix(fn.Name(), "init#") {
+			continue
+		}
 		for _, b := range fn.Blocks {
 			for _, ins := range b.Instrs {
 				var g *ssa.Global
